@@ -24,4 +24,6 @@ run MCCount  MCNegD4       ReserveContract # FixD4 = FALSE: wrapping additions i
 run MCCount  MCNegD6       NoErr         # FixD6 = FALSE: clone_from into an empty table with tombstones
 run MCCount  MCNegD8       NoErr         # FixD8 = FALSE, debug: (hint + 1) / 2 overflows in extend
 run MCCloneFrom MCNegD9    Findable      # FixD9 = FALSE: clone_from interrupted while carrying the leftovers
+run MCEntry MCEntryS18     HandleCoherent # OccupiedEntry::insert carries: the handle's bucket is vacated under it (seeds S18/S23/S27)
+run MCEntry MCEntryS38     HandleCoherent # or_insert* on a present old-table key carries before returning the reference (seed S38)
 exit $rc
